@@ -107,7 +107,19 @@ def has(node, fragment: str, scope=None) -> bool:
 def same(node, fragment: str, scope=None) -> bool:
     """The whole node equals the fragment (same token discipline as `has`)."""
     text = node if isinstance(node, str) else ast.unparse(node)
-    return len(toks(text)) == len(toks(fragment)) and has(node, fragment, scope=scope)
+    if len(toks(text)) == len(toks(fragment)) and has(node, fragment, scope=scope):
+        return True
+    # the same expression up to the order of commutative operands, bracketing, a > b vs b < a ... (locals are already canonical)
+    if isinstance(node, ast.expr):
+        try:
+            frag = ast.parse(fragment, mode="eval").body
+        except SyntaxError:
+            return False
+        try:
+            return canon_expr(node) == canon_expr(frag)
+        except Exception:
+            return False
+    return False
 
 
 def dotted(node) -> Optional[str]:
@@ -685,6 +697,22 @@ def canon_expr(node, env: Optional[dict] = None, ones: tuple = ()):
                             return [(F(1), {a_: e_ * ex for a_, e_ in pb.items()})]
                     return [(F(1), {as_atom(b): ex})]
                 return [(F(1), {("pow", finish(b), finish(e)): F(1)})]
+        if isinstance(n, ast.Compare) and len(n.ops) == 1:
+            l, r = finish(lift(n.left)), finish(lift(n.comparators[0]))
+            op = type(n.ops[0]).__name__
+            flip = {"Gt": "Lt", "GtE": "LtE"}
+            if op in flip:  # a > b  ==  b < a
+                op, l, r = flip[op], r, l
+            if op in ("Eq", "NotEq") and repr(l) > repr(r):
+                l, r = r, l
+            return [(F(1), {("cmp", op, l, r): F(1)})]
+        if isinstance(n, ast.BoolOp):
+            vals = tuple(sorted((finish(lift(v)) for v in n.values), key=repr))
+            return [(F(1), {("bool", type(n.op).__name__, vals): F(1)})]
+        if isinstance(n, ast.UnaryOp) and isinstance(n.op, ast.Not):
+            return [(F(1), {("not", finish(lift(n.operand))): F(1)})]
+        if isinstance(n, ast.IfExp):
+            return [(F(1), {("ifexp", finish(lift(n.test)), finish(lift(n.body)), finish(lift(n.orelse))): F(1)})]
         if isinstance(n, ast.Call):
             nm = dotted(n.func) or ast.unparse(n.func)
             short = nm.split(".")[-1]
@@ -727,6 +755,14 @@ def canon_str(form) -> str:
             return "%s(%s)" % (a[1], ", ".join(canon_str(x) for x in a[2]))
         if a[0] == "pow":
             return "(%s)**(%s)" % (canon_str(a[1]), canon_str(a[2]))
+        if a[0] == "cmp":
+            return "(%s %s %s)" % (canon_str(a[2]), {"Lt": "<", "LtE": "<=", "Eq": "==", "NotEq": "!="}.get(a[1], a[1]), canon_str(a[3]))
+        if a[0] == "bool":
+            return "(" + (" %s " % a[1].lower()).join(canon_str(x) for x in a[2]) + ")"
+        if a[0] == "not":
+            return "not %s" % canon_str(a[1])
+        if a[0] == "ifexp":
+            return "(%s if %s else %s)" % (canon_str(a[2]), canon_str(a[1]), canon_str(a[3]))
         return "(%s)" % canon_str(a)
 
     def prod(c, k):
